@@ -374,6 +374,43 @@ pub fn has_union(q: &Value) -> bool {
     }
 }
 
+fn is_phrase_like(q: &Value) -> bool {
+    match q["k"].as_str().unwrap_or("") {
+        "phrase" | "pprefix" | "rphrase" => true,
+        "boost" | "const" => is_phrase_like(&q["q"]),
+        _ => false,
+    }
+}
+
+/// Recorded finding: BufferedUnionScorer::seek_danger leaves a member that missed in the danger zone; if a
+/// later call succeeds through another member, the stale member's position (a document that has the
+/// terms of a phrase but not the phrase, or the lead document of an intersection) is taken as a match.
+/// True if some union (Should clauses / disjuncts) has a phrase-like or intersection member.
+pub fn union_has_danger_member(q: &Value) -> bool {
+    match q["k"].as_str().unwrap_or("") {
+        "bool" => {
+            let cl = q["cl"].as_array().unwrap();
+            cl.iter().any(|c| union_has_danger_member(&c["q"]))
+                || cl.iter().any(|c| c["o"] == "should" && (is_phrase_like(&c["q"]) || may_be_intersection(&c["q"])))
+        }
+        "dismax" => {
+            let qs = q["qs"].as_array().unwrap();
+            qs.iter().any(union_has_danger_member) || qs.iter().any(|x| is_phrase_like(x) || may_be_intersection(x))
+        }
+        "boost" | "const" => union_has_danger_member(&q["q"]),
+        _ => false,
+    }
+}
+
+/// some node of the tree may become a BufferedUnionScorer
+pub fn has_union_anywhere(q: &Value) -> bool {
+    match q["k"].as_str().unwrap_or("") {
+        "bool" | "dismax" => true,
+        "boost" | "const" => has_union_anywhere(&q["q"]),
+        _ => false,
+    }
+}
+
 /// the top-level scorer (through boost wrappers / single-clause shortcuts) may be an Intersection
 /// (recorded finding: its dense count_including_deleted leaves doc() on a stale document)
 pub fn may_be_intersection(q: &Value) -> bool {
@@ -381,9 +418,11 @@ pub fn may_be_intersection(q: &Value) -> bool {
         "bool" => {
             let cl = q["cl"].as_array().unwrap();
             let n_must = cl.iter().filter(|c| c["o"] == "must").count();
-            n_must >= 1 || q["msm"].as_u64().unwrap_or(0) >= 2 || (cl.len() == 1 && may_be_intersection(&cl[0]["q"]))
+            // (a union whose other members are empty on the segment is replaced by its only member)
+            n_must >= 1 || q["msm"].as_u64().unwrap_or(0) >= 2 || cl.iter().any(|c| c["o"] != "mustnot" && may_be_intersection(&c["q"]))
         }
         "boost" => may_be_intersection(&q["q"]),
+        "dismax" => q["qs"].as_array().unwrap().iter().any(may_be_intersection),
         _ => false,
     }
 }
